@@ -41,6 +41,139 @@ fn ob_c16_feed_not_empty(state: u8, x: u8) {
     assert!(not.input.cancels == 1, "C13 Not forwards cancellation to its input exactly once");
 }
 
+// ---- negations with a NON-EMPTY program: the regex engine as an arbitrary oracle -----------------
+//
+// A `Regex` cannot be built inside the verifier (compiling one is far outside CBMC's reach), so the
+// two programs are uninitialised placeholders that are never read: `regex::Regex::is_match` is
+// replaced by an oracle that answers `ve` for the exhaustive program (recognised by address) and `vn`
+// for the other one. Everything else -- FilterAnyProgram::residue, FilterAny::residue, Not::feed,
+// Separation::filter_tree_by_substituent -- is the real code. Not replayable natively.
+#[cfg(kani)]
+mod oracle {
+    pub static mut EXHAUSTIVE: *const regex::Regex = core::ptr::null();
+    pub static mut V_EXHAUSTIVE: bool = false;
+    pub static mut V_OTHER: bool = false;
+    pub static mut CALLS: u32 = 0;
+}
+#[cfg(kani)]
+fn is_match_oracle(re: &Regex, _: &str) -> bool {
+    // SAFETY: single-threaded verifier-only state.
+    unsafe {
+        oracle::CALLS += 1;
+        if core::ptr::eq(re, oracle::EXHAUSTIVE) { oracle::V_EXHAUSTIVE } else { oracle::V_OTHER }
+    }
+}
+#[cfg(not(kani))]
+fn is_match_oracle(_: &Regex, _: &str) -> bool {
+    unimplemented!("verifier-only")
+}
+
+// kind: 0 Empty, 1 Exhaustive, 2 Nonexhaustive, 3 Partitioned
+#[cfg(kani)]
+fn mk_program(kind: u8, ve: bool, vn: bool) -> FilterAnyProgram {
+    // SAFETY: the placeholders are never read (is_match is stubbed) and never dropped (forgotten).
+    let placeholder = || unsafe { core::mem::MaybeUninit::<Regex>::uninit().assume_init() };
+    let program = match kind {
+        0 => FilterAnyProgram::Empty,
+        1 => FilterAnyProgram::Exhaustive(placeholder()),
+        2 => FilterAnyProgram::Nonexhaustive(placeholder()),
+        _ => FilterAnyProgram::Partitioned { exhaustive: placeholder(), nonexhaustive: placeholder() },
+    };
+    program
+}
+#[cfg(kani)]
+fn arm_oracle(program: &FilterAnyProgram, ve: bool, vn: bool) {
+    // SAFETY: single-threaded verifier-only state.
+    unsafe {
+        oracle::EXHAUSTIVE = match program {
+            FilterAnyProgram::Exhaustive(ref exhaustive) | FilterAnyProgram::Partitioned { ref exhaustive, .. } => exhaustive as *const Regex,
+            _ => core::ptr::null(),
+        };
+        oracle::V_EXHAUSTIVE = ve;
+        oracle::V_OTHER = vn;
+        oracle::CALLS = 0;
+    }
+}
+#[cfg(not(kani))]
+fn mk_program(_: u8, _: bool, _: bool) -> FilterAnyProgram {
+    FilterAnyProgram::Empty
+}
+#[cfg(not(kani))]
+fn arm_oracle(_: &FilterAnyProgram, _: bool, _: bool) {}
+
+// the verdict the documentation assigns: a tree discard only if the EXHAUSTIVE program matches
+fn spec_verdict(kind: u8, ve: bool, vn: bool) -> u8 {
+    let has_exhaustive = kind == 1 || kind == 3;
+    let has_other = kind == 2 || kind == 3;
+    if has_exhaustive && ve {
+        2
+    }
+    else if has_other && vn {
+        1
+    }
+    else {
+        0
+    }
+}
+
+//@ob C13.not.residue
+//@ props: C13 C05
+//@ kind: complete
+//@ replay: none
+//@ unwind: 4
+//@ stub: regex::Regex::is_match=is_match_oracle
+//@ fns: src/walk/glob.rs::FilterAnyProgram::residue
+//@ pre: any of the four program shapes (Empty, Exhaustive, Nonexhaustive, Partitioned); the regex engine answers arbitrarily (ve for the exhaustive program, vn for the non-exhaustive one)
+//@ post: the residue is Tree exactly when there is an exhaustive program and IT matches -- a match of the non-exhaustive program alone never discards a tree (its descendants need not match) --, File exactly when not Tree and the non-exhaustive program matches, None otherwise
+fn ob_c13_not_residue(kind: u8, ve: bool, vn: bool) {
+    vassume!(kind <= 3);
+    let program = mk_program(kind, ve, vn);
+    arm_oracle(&program, ve, vn);
+    vcover!(kind == 3 && !ve && vn);
+    vcover!(kind == 2 && vn);
+    let residue = program.residue(CandidatePath::from(Path::new("")));
+    core::mem::forget(program);
+    let got = match residue {
+        None => 0,
+        Some(EntryResidue::File) => 1,
+        Some(EntryResidue::Tree) => 2,
+    };
+    assert!(got == spec_verdict(kind, ve, vn), "C13 only a match of the exhaustive program discards a tree");
+}
+
+//@ob C13.feed.Not.oracle
+//@ props: C13 C16 C20 C05
+//@ kind: complete
+//@ replay: none
+//@ unwind: 4
+//@ stub: regex::Regex::is_match=is_match_oracle
+//@ fns: src/walk/mod.rs::Not::feed src/walk/glob.rs::FilterAny::residue src/walk/glob.rs::FilterAnyProgram::residue src/filter.rs::Separation::filter_tree_by_substituent
+//@ pre: a negation with any program shape and any oracle answers; one fed item in any state (filtrate Ok, node residue, tree residue, filtrate Err)
+//@ post: the outcome is the join max(state, verdict) with the payload preserved; the INPUT is cancelled exactly once iff the verdict is Tree (the exhaustive program matched) and the item was not already tree residue; an Err item passes through unchanged without consulting any program and without cancelling
+fn ob_c13_feed_not_oracle(state: u8, x: u8, kind: u8, ve: bool, vn: bool) {
+    vassume!(state <= 3 && kind <= 3);
+    let program = mk_program(kind, ve, vn);
+    let mut not = Not { input: MockFeed::new(state, x), filter: FilterAny { program } };
+    arm_oracle(&not.filter.program, ve, vn);
+    vcover!(state == 0 && kind == 3 && ve);
+    vcover!(state == 1 && kind == 1 && ve);
+    vcover!(state == 3 && kind == 3);
+    let (out, payload) = observe(not.feed());
+    let cancels = not.input.cancels;
+    let verdict = spec_verdict(kind, ve, vn);
+    assert!(payload == x, "C16/C20 same item out");
+    if state == 3 {
+        assert!(out == 3 && cancels == 0, "C20 an Err item passes through, nothing is cancelled");
+        #[cfg(kani)]
+        assert!(unsafe { oracle::CALLS } == 0, "C20 an Err item is not matched against the negation");
+    }
+    else {
+        assert!(out == if state >= verdict { state } else { verdict }, "C16 outcome is the join of the upstream state and the verdict");
+        assert!(cancels == if verdict == 2 && state != 2 { 1 } else { 0 }, "C13 the input is cancelled exactly once iff the exhaustive program matched an entry that is not yet tree residue");
+    }
+    core::mem::forget(not);
+}
+
 //@ob C16.walkglob.canary
 //@ props: C16
 //@ kind: canary
